@@ -706,6 +706,15 @@ func (c *client) loopWrite() {
 		switch c.filter.Do(req) {
 		case Continue:
 		case Stop:
+			// NOTE: the filter has answered the request and nothing is written
+			// for it, but earlier requests may still sit in the buffer because
+			// this one was pending behind them.
+			if len(c.pendingReqs) == 0 {
+				if err = c.enc.Flush(); err != nil {
+					c.logger.Warnf("loop write exit: %v", err)
+					return
+				}
+			}
 			continue
 		}
 
